@@ -104,9 +104,21 @@ static void gen_zzDiv(fc_ctx* c)
 	c->a[3] = stk(zzDiv_deep(c->n[0], c->n[1]));
 }
 static err_t call_zzDiv(fc_ctx* c) { zzDiv(c->a[0], c->a[4], c->a[1], c->n[0], c->a[2], c->n[1], c->a[3]); return ERR_OK; }
-static void gen_zzMod(fc_ctx* c)
+/* Mod (unlike Div) has no n >= m precondition: a third of the cases have a
+   dividend shorter than the divisor, or empty */
+static void g_mod_nm(fc_ctx* c)
 {
 	g_div(c);
+	if (fc_below(c, 3) == 0)
+	{
+		c->n[0] = fc_below(c, (uint32_t)c->n[1] + 1);
+		c->a[1] = opnd(c, c->n[0], 0, 0);
+		c->variant = (int)(c->n[0] * 100 + c->n[1]);
+	}
+}
+static void gen_zzMod(fc_ctx* c)
+{
+	g_mod_nm(c);
 	c->a[0] = fc_out(c, W(c->n[1]));
 	c->a[3] = stk(zzMod_deep(c->n[0], c->n[1]));
 }
@@ -121,7 +133,7 @@ static void gen_ppDiv(fc_ctx* c)
 static err_t call_ppDiv(fc_ctx* c) { ppDiv(c->a[0], c->a[4], c->a[1], c->n[0], c->a[2], c->n[1], c->a[3]); return ERR_OK; }
 static void gen_ppMod(fc_ctx* c)
 {
-	g_div(c);
+	g_mod_nm(c);
 	c->a[0] = fc_out(c, W(c->n[1]));
 	c->a[3] = stk(ppMod_deep(c->n[0], c->n[1]));
 }
